@@ -4,3 +4,5 @@ pub mod monitor;
 pub mod stubs;
 #[cfg(kani)]
 mod h_opt;
+#[cfg(kani)]
+mod h_gen;
